@@ -184,6 +184,38 @@ def finish(mod, modname, pid, tier, seed, repo, t0, results, skipped, heavy, n_j
             status = EXIT_HARNESS
             for m in mism[:5]:
                 log(f"[{pid}] ENCODING MISMATCH (symbolic terms vs unpatched float64 run) task {m[0]}: {m[1]}")
+        # ---------------- concrete fallback: a task whose symbolic run hit a boundary the engine cannot encode (e.g. the code
+        # converts a value to a C int / float) is executed on its concrete test vectors in the unpatched package; a claim that
+        # fails there is a violation demonstrated on the real code (found without the solver - flagged as such)
+        fallback_hits = []
+        for r in herr[:12]:
+            try:
+                vecs = list(mod.test_vectors(r["params"])) if hasattr(mod, "test_vectors") else []
+            except Exception:  # noqa: BLE001
+                vecs = []
+            for vec in vecs[:3]:
+                vals = common._ser_model(vec)
+                ans = srv.ask({"module": modname, "params": r["params"], "values": vals}) if srv else None
+                if ans is None:
+                    srv = common.ConcreteServer(heavy=heavy, repo=repo)
+                    ans = srv.ask({"module": modname, "params": r["params"], "values": vals})
+                bad = [c for c in (ans.get("failed") or []) if not c.startswith("canary")] or (["no-exception"] if ans.get("exception") else [])
+                if ans.get("assumptions_ok", True) and bad:
+                    fallback_hits.append((r, vals, bad[0]))
+                    break
+        fb_done = set()
+        for r, vals, claim in fallback_hits:
+            sig = f"{pid}/concrete-fallback/{claim.split(':')[0]}"
+            if sig in fb_done:
+                continue
+            fb_done.add(sig)
+            path = common.write_replay(pid, modname, r["params"], vals, claim, heavy)
+            rc, outp = common.run_replay(path, repo)
+            if rc == 1:
+                violations.append((r, {"name": claim, "status": "violated", "path": 0, "info": {"sig": sig, "fallback": True}, "model": vals,
+                                       "slack_model": False}))
+                log(f"[{pid}] symbolic run of task {r.get('key')} stopped at an encoding boundary ({r['harness_error'][:80]}); "
+                    f"its concrete test vector violates claim {claim}")
         # ---------------- canaries: the harness must be able to see a false claim
         can_viol = [(r, c) for r, c in canaries if c["status"] == "violated"]
         can_rep = 0
